@@ -12,7 +12,8 @@ import (
 
 type gor struct {
 	id        int
-	label     int // logical id given by the harness (verifGo); defaults to id
+	label     int // logical id given by the harness (verifGo)
+	labelled  bool
 	wake      chan struct{}
 	exited    chan struct{}
 	done      bool
